@@ -193,6 +193,8 @@ def cmd_table(_args):
         if rc and (not rc.get('patch_applies') or not rc.get('demo_changed_rc')):
             det += f" - retired: on /repo {rc.get('head')} " + ('the patch no longer applies' if not rc.get('patch_applies') else
                                                             'the change no longer breaks the property (its own demo passes with it; a later fix: commit neutralised it)')
+        if m.get('note'):
+            det += ' - ' + m['note']
         print(f"| {d} | {m.get('property')} | {m.get('title', '')[:70]} | {str(m.get('needs', ''))[:90]} | {det} |")
     return 0
 
